@@ -46,6 +46,9 @@ type SymPtr struct {
 	Idx   *smt.Term
 }
 
+// DataPtr is the result of unsafe.SliceData / unsafe.StringData.
+type DataPtr struct{ Cells []Value }
+
 // Str is a string or the content of a string: concrete length, bytes concrete
 // or symbolic.
 type Str struct {
